@@ -160,7 +160,7 @@ Fixpoint run_pd (ops : list dop2) (s : px) : list tree * px :=
   | o :: r =>
       let '(x, s') := match o with D1 o' => pd_step s o' | DAssign m => (DOk None, pd_assign s m) end in
       let '(out, sf) := run_pd r s' in
-      (L [I (match x with DOk _ => 0 | DRaise e => rc_of_exn e | DAttrError => 21 end);
+      (L [I (match x with DOk _ => 0 | DRaise e => rc_of_exn e end);
           match x with DOk (Some v) => I v | _ => L [] end;
           show_pd s'] :: out, sf)
   end.
